@@ -1924,6 +1924,178 @@ fn probes() -> Vec<Case> {
     v
 }
 
+// ---------------------------------------------------------------------------------------------
+// post names: every path that can change a name between the source and the Pascal string
+
+struct PostCase {
+    label: String,
+    /// source glyph names after .notdef, in glyph order
+    names: Vec<String>,
+    /// public.postscriptNames (None = key absent)
+    rename: Option<Vec<(String, String)>>,
+    production: bool,
+}
+
+fn xs(c: char, n: usize) -> String {
+    std::iter::repeat(c).take(n).collect()
+}
+
+fn post_probes() -> Vec<PostCase> {
+    let mut v = Vec::new();
+    let mut add = |label: String, names: Vec<String>, rename: Option<Vec<(String, String)>>, production: bool| v.push(PostCase { label, names, rename, production });
+    for l in [253usize, 254, 255] {
+        let x = xs('a', l);
+        add(format!("post-twin-{l}"), vec![x.clone(), "twin".into()], Some(vec![("twin".into(), x.clone())]), true);
+        add(format!("post-both-mapped-{l}"), vec!["g1".into(), "g2".into(), "g3".into()], Some(vec![("g1".into(), x.clone()), ("g2".into(), x.clone())]), true);
+        // equal only after the illegal characters are stripped
+        let mut y = x.clone();
+        y.insert(l / 2, '-');
+        add(format!("post-strip-collision-{l}"), vec![x.clone(), y.clone()], Some(vec![]), true);
+        let z = format!("{}\u{e9} {}", &x[..l / 3], &x[l / 3..]);
+        add(format!("post-strip-collision-mapped-{l}"), vec!["p".into(), "q".into()], Some(vec![("p".into(), x.clone()), ("q".into(), z)]), true);
+        // production names off: the map is ignored, names are written as they are
+        add(format!("post-twin-{l}-production-off"), vec![x.clone(), "twin".into()], Some(vec![("twin".into(), x.clone())]), false);
+    }
+    // a long source name that fits once cleaned
+    add("post-shrinks-to-fit".into(), vec!["a".into(), format!("{}- \u{e9}-", xs('b', 253))], Some(vec![]), true);
+    add("post-too-long-even-cleaned".into(), vec!["a".into(), format!("{}-", xs('b', 256))], Some(vec![]), true);
+    // a literal X.1 next to duplicates of X (253 bytes): .2 .. .9 fit, .10 does not
+    for (k, literal_first) in [(1usize, true), (8, true), (9, true), (9, false), (2, false)] {
+        let x = xs('c', 253);
+        let mut names = vec![];
+        if literal_first {
+            names.push(format!("{x}.1"));
+        }
+        names.push(x.clone());
+        let mut rn = vec![];
+        for d in 0..k {
+            names.push(format!("d{d}"));
+            rn.push((format!("d{d}"), x.clone()));
+        }
+        if !literal_first {
+            names.push(format!("{x}.1"));
+        }
+        add(format!("post-literal-suffix-{k}-{}", if literal_first { "first" } else { "last" }), names, Some(rn), true);
+    }
+    add("post-short-collisions".into(), vec!["a".into(), "b".into(), "c".into(), "a.1".into(), "a-".into()], Some(vec![("b".into(), "a".into()), ("c".into(), "a".into())]), true);
+    add("post-no-map".into(), vec![xs('e', 255), xs('e', 254)], None, true);
+    v
+}
+
+fn gen_post_case(rng: &mut Rng, idx: usize) -> PostCase {
+    let l = rng.range(250, 256) as usize;
+    let c = *rng.pick(&['a', 'Z', '7', '_']);
+    let x = xs(c, l);
+    let n = rng.range(2, 13) as usize;
+    let dirty = |rng: &mut Rng, s: &str| {
+        let mut y = s.to_string();
+        for _ in 0..rng.range(1, 3) {
+            let mut pos = rng.below(y.len() as u64 + 1) as usize;
+            while !y.is_char_boundary(pos) {
+                pos -= 1;
+            }
+            y.insert_str(pos, *rng.pick(&["-", " ", "\u{e9}", "+", "\u{4e2d}"]));
+        }
+        y
+    };
+    let variant = |rng: &mut Rng| -> String {
+        match rng.below(9) {
+            0 | 1 | 2 => x.clone(),
+            3 => dirty(rng, &x),
+            4 => format!("{x}.{}", rng.range(1, 11)),
+            5 => x[..l - rng.range(1, 3) as usize].to_string(),
+            6 => dirty(rng, &x[..l - 1]),
+            7 => (*rng.pick(&["a", "a.1", "b", "a-", "a.2"])).to_string(),
+            _ => format!("{x}x"),
+        }
+    };
+    let mut names: Vec<String> = Vec::new();
+    let mut rename = Vec::new();
+    for i in 0..n {
+        // the source name is either one of the variants itself or a short name mapped to one
+        let own = if rng.chance(1, 3) { variant(rng) } else { format!("s{i}") };
+        if names.contains(&own) || own == ".notdef" {
+            names.push(format!("u{i}"));
+        } else {
+            names.push(own);
+        }
+        if rng.chance(2, 3) {
+            rename.push((names[i].clone(), variant(rng)));
+        }
+    }
+    let rename = if rng.chance(1, 8) { None } else { Some(rename) };
+    PostCase { label: format!("post-gen-{idx}"), names, rename, production: rng.chance(7, 8) }
+}
+
+fn run_post_case(cx: &mut Ctx, pc: &PostCase, outcomes: &mut BTreeMap<String, usize>, notes: &mut Vec<String>) {
+    use fontir::orchestration::Flags;
+    let mut glyphs = vec![simple(".notdef", 500.0, 0)];
+    for (i, n) in pc.names.iter().enumerate() {
+        glyphs.push(simple(n, 500.0, i as i64 + 1).uni(0x100 + i as u32));
+    }
+    let order: Vec<String> = glyphs.iter().map(|g| g.name.clone()).collect();
+    let mut d = Design::single("PostNames", glyphs);
+    d.masters[0].glyph_order = Some(order.clone());
+    if let Some(rn) = &pc.rename {
+        let mut x = String::from("<dict>");
+        for (k, v) in rn {
+            x.push_str(&format!("<key>{}</key><string>{}</string>", xml_escape(k), xml_escape(v)));
+        }
+        x.push_str("</dict>");
+        d.masters[0].lib.push(("public.postscriptNames".into(), x));
+    }
+    let flags = if pc.production { Flags::default() } else { Flags::PREFER_SIMPLE_GLYPHS };
+    let dir = scratch_dir("c05p");
+    let path = d.write(dir.path());
+    let src = json!({"glyph_order": order, "public.postscriptNames": pc.rename, "production_names": pc.production});
+    let impl_names: Option<Option<Vec<Vec<u8>>>> = match compile_path(&path, Some(flags), None) {
+        Outcome::Font(b) => {
+            *outcomes.entry("post-names:font".into()).or_default() += 1;
+            evaluate(cx, &pc.label, "post-names", &b, &[], src.clone());
+            let names = FontRef::new(&b).ok().and_then(|f| f.post().ok()).map(|p| {
+                (0..order.len()).map(|g| p.glyph_name(write_fonts::types::GlyphId16::new(g as u16)).map(|s| s.as_bytes().to_vec()).unwrap_or_else(|| vec![0])).collect::<Vec<_>>()
+            });
+            Some(Some(names.unwrap_or_default()))
+        }
+        Outcome::Error(e) => {
+            *outcomes.entry("post-names:error".into()).or_default() += 1;
+            if e.contains("post table limit") {
+                Some(None)
+            } else {
+                if notes.len() < 30 {
+                    notes.push(format!("{}: error: {}", pc.label, e.chars().take(160).collect::<String>()));
+                }
+                None
+            }
+        }
+        Outcome::Panic(e) => {
+            *outcomes.entry("post-names:panic".into()).or_default() += 1;
+            if notes.len() < 30 {
+                notes.push(format!("{}: panic: {}", pc.label, e.chars().take(160).collect::<String>()));
+            }
+            None
+        }
+    };
+    if let Some(im) = impl_names {
+        let cname = |b: &[u8]| format!("[{}]", b.iter().map(|x| x.to_string()).collect::<Vec<_>>().join(";"));
+        let names = format!("[{}]", order.iter().map(|n| cname(n.as_bytes())).collect::<Vec<_>>().join(";"));
+        let rn = match (&pc.rename, pc.production) {
+            (Some(rn), true) => format!(
+                "(Some [{}])",
+                rn.iter().filter_map(|(k, v)| order.iter().position(|o| o == k).map(|i| format!("({},{})", i, cname(v.as_bytes())))).collect::<Vec<_>>().join(";")
+            ),
+            _ => "None".to_string(),
+        };
+        let im_s = match &im {
+            None => "None".to_string(),
+            Some(v) => format!("(Some [{}])", v.iter().map(|n| cname(n)).collect::<Vec<_>>().join(";")),
+        };
+        let coq = format!("post_agree {names} {rn} {im_s}");
+        emit_case(cx.id, "post-names", coq, None, true, format!("p:{}", pc.label), json!({"case": pc.label, "source": src, "impl": if im.is_some() { "font" } else { "length error" }}));
+        cx.id += 1;
+    }
+}
+
 fn testdata_sources() -> Vec<std::path::PathBuf> {
     fn rec(dir: &std::path::Path, depth: usize, out: &mut Vec<std::path::PathBuf>) {
         let Ok(rd) = std::fs::read_dir(dir) else { return };
@@ -2214,6 +2386,14 @@ fn main() {
     for i in 0..n {
         let c = gen_case(&mut rng, i);
         run_case(&mut cx, &c, &mut outcomes, &mut notes);
+    }
+    // post names: fixed probes, then generated
+    for pc in post_probes() {
+        run_post_case(&mut cx, &pc, &mut outcomes, &mut notes);
+    }
+    for i in 0..(n / 4).max(10) {
+        let pc = gen_post_case(&mut rng, i);
+        run_post_case(&mut cx, &pc, &mut outcomes, &mut notes);
     }
     // M
     let keep = std::mem::take(&mut cx.keep);
